@@ -34,6 +34,22 @@ CLAIMS = {
   text="Coq theorem C10: for all ten integer targets, both pointer widths and EVERY 64-bit pattern outside the recorded class Known, the transcribed macro body (trunc/==/range guards/saturating cast over a bit-level model of binary64) returns Some x only if the double is exactly the integer x within the type's range, and None only if no in-range integer equals it; Known_iff characterises the excluded class exactly (2^63 for i64/isize64, 2^64 for u64/usize64) and Known_wrong / C10_refuted show the code is wrong there (finding F4). F64 facts (of_int exact below 2^53, nearest otherwise; of_f32 exact) are proved. Correspondence runs <int>::deserialize on every power of two +-3 ulp, type bounds and neighbours, halves, infinities and random patterns.",
   note="Trusted: Coq kernel; bit-level double model Base/F64.v and Api/IntDeser.v validated against the hardware/Rust by correspondence. usize/isize at W=32 are proved but only run at the host width.",
   ref="DESIGN.md §6 C10"),
+ "C09": dict(
+  text="Coq theorems over a typed universe (unit, bool, i32, f64, string, Option, Vec, string-keyed map, tuples, fixed arrays, the ten integer targets): C09_ser (serialising a well-typed value runs through the writer model without error and outputs exactly enc_tree (tree_of v), for every iteration order of every map), C09_json (tree_of = serde's JSON tree for finite doubles), C09_roundtrip (deserialising that document at the same type returns the value, every size incl. empty, every nesting, W in {32,64}) under the exclusion opt_ok (no Option of a nullable type: C09_refuted shows Some(()) / Some(None) read back as None - recorded finding F9), C09_mismatch / C09_reject / C09_match (a document is accepted iff it has the JSON shape of the type; no coercion), C09_via_spec / C09_via_lazy / C09_end_to_end (the deserialiser inspects the document only through Value-level calls, which by C01 the lazy reader answers as the eager tree). Correspondence runs the REAL trait impls on 28 concrete Rust types: serialise, compare bytes and serde_json's value, hand the output back, deserialise; plus thousands of (document, target type) pairs.",
+  note="Trusted: Coq kernel; hand transcription Api/Typed.v of the trait impls validated by correspondence on a finite family of concrete types (the Rust type family is sampled, the theorems quantify over the whole universe); serde_json as JSON oracle.",
+  ref="DESIGN.md §6 C09"),
+ "C12": dict(
+  text="Coq theorems over a transcription of string_interner.rs and the per-thread context: ids are 0,1,2,... in call order (fresh), iget id returns the interned bytes for every id ever returned whatever is interned afterwards (buffer growth is harmless: offsets, not pointers), the writer's abstract `interned` list refines it, OIStr id behaves exactly like OStr bytes and an interned property lookup exactly like the lookup by name (C12_context: in any history incl. any number of re-initialisations on the thread), SLoad of a cached key returns the same id on every load within a thread and a valid id on every thread under every schedule. Correspondence: real interning / write-by-id / lookup-by-id / CachedInternedStringId::load histories over several invocations and threads, compared with the model and with the same script using the original bytes.",
+  note="Trusted: Coq kernel; hand-written Ctx/Interner.v, Ctx/Context.v validated by correspondence. An id never returned panics (spans[id]) and is outside the quantifier.",
+  ref="DESIGN.md §6 C12"),
+ "C13": dict(
+  text="Coq theorem C13: for EVERY earlier history of raw provider-level steps on a thread (reads, finished/abandoned/rejected writes, logs, interning, earlier re-initialisations) and every script that starts a new invocation and uses only ids it obtains itself, the observations equal those of the same script on a fresh thread up to the values of interned ids (C13_shift: exactly shifted by the number of strings interned before, when no cached key is involved); structural obligations decided on the REGENERATED table: every field of struct Context is covered by the model record and initialize_from_msgpack_bytes keeps exactly string_interner. The theorem is shallow (it follows from the model's init); the substance is the correspondence: multi-invocation histories on one real thread compared step by step with the model and with the same invocation on a fresh thread (reads, statuses, output bytes via hook, log view via hook).",
+  note="Trusted: Coq kernel; translator T5 (struct Context fields, what init keeps); hand-written Ctx/Context.v validated by correspondence. The api-level id cache survives by design.",
+  ref="DESIGN.md §6 C13"),
+ "C14": dict(
+  text="Coq theorem C14 (C14_any_world, C14_for_the_code): for any number of threads, any scripts of provider-level steps (split exactly where a call hands back a destination or copy plan and the glue copies afterwards) and EVERY schedule, each thread's observations equal those of its script running alone - by induction on the schedule, no bound - for the model instantiated with the placement the REGENERATED statics table gives to the log return area, under the hypothesis that every mutable static is thread-local, which is decided by vm_compute on that table (Ctx/StaticsOk.v; C14_refuted_global shows the three-step interference when the area is global, which was the code's state before the repair of finding F7). Correspondence: 2-3 real OS threads under a baton scheduler, all interleavings of short scripts enumerated (sampled above the tier's limit), per-thread observations compared with the model and with solo runs.",
+  note="Trusted: Coq kernel; translator T5; hand-written Ctx/Threads.v (sequentially consistent; no weak memory, true data races are not exhibited by a baton scheduler).",
+  ref="DESIGN.md §6 C14"),
 }
 
 
